@@ -267,13 +267,15 @@ theorem converted_weak_block_stays (n : Nat) (ops : List Op)
     once over any history, and only after it was destructed — whichever pointer to it (original
     or converted) was the last one held. -/
 theorem destructed_once (n : Nat) (ops : List Op) (a : Alloc) (ch : Chain) (p q : PtrVal)
-    (_h : apply a ch p = some q) :
-    (((Arena.new n).run ops).ctx.log.count (.dropped q.obj) ≤ 1) ∧
-    (((Arena.new n).run ops).ctx.log.count (.freed q.obj) ≤ 1) ∧
-    (Event.freed q.obj ∈ ((Arena.new n).run ops).ctx.log →
-      Event.dropped q.obj ∈ ((Arena.new n).run ops).ctx.log) := by
+    (h : apply a ch p = some q) :
+    q.obj = p.obj ∧
+    (((Arena.new n).run ops).ctx.log.count (.dropped p.obj) ≤ 1) ∧
+    (((Arena.new n).run ops).ctx.log.count (.freed p.obj) ≤ 1) ∧
+    (Event.freed p.obj ∈ ((Arena.new n).run ops).ctx.log →
+      Event.dropped p.obj ∈ ((Arena.new n).run ops).ctx.log) := by
   have hl := linv_run n ops
-  exact ⟨List.nodup_iff_count.mp hl.nodup _, List.nodup_iff_count.mp hl.nodup _, hl.freedDropped _⟩
+  exact ⟨(apply_same h).1, List.nodup_iff_count.mp hl.nodup _, List.nodup_iff_count.mp hl.nodup _,
+    hl.freedDropped _⟩
 
 /-! ### ZstCache -/
 
